@@ -48,7 +48,7 @@ class DivisionByZero(NotEvaluable):
 
 _FUNCTION_FORMS = {"sort", "flatten", "unsqueeze", "squeeze", "transpose", "gather", "masked_fill", "masked_select", "masked_scatter", "clamp", "clamp_min",
                    "clamp_max", "abs", "neg", "prod", "square", "sqrt", "eq", "ne", "lt", "le", "gt", "ge", "tril", "triu", "repeat_interleave", "unique_consecutive",
-                   "t", "numel", "reshape", "expand_as", "view_as", "movedim"}
+                   "t", "numel", "reshape", "expand_as", "view_as", "movedim", "index_select", "isneginf", "isposinf", "isinf", "isfinite", "isnan"}
 IDENTITY_METHODS = {"float", "double", "long", "int", "to", "clone", "detach", "type_as", "cpu"}
 
 
@@ -792,6 +792,15 @@ def _call_impl(c: ast.Call, ev, t: str):
     if m == "nonzero" and not c.args and not c.keywords:
         b_ = x if x.dtype == bool else (_as_exact(x) != 0)
         return frac_array(np.argwhere(b_).tolist()) if b_.any() else np.empty((0, x.ndim), dtype=object)
+    if m == "index_select" and len(c.args) == 2 and not c.keywords and _is_arr(x):
+        d = _axis(_int(ev(c.args[0])), x.ndim)
+        idx = ev(c.args[1])
+        if not _is_arr(idx) or idx.ndim != 1:
+            raise NotEvaluable("index_select index")
+        ii = [int(z) for z in idx.tolist()]
+        if any(z < 0 or z >= x.shape[d] for z in ii):
+            raise NotEvaluable("index_select index out of range")
+        return np.take(x, ii, axis=d)
     if m == "gather" and len(c.args) == 2 and not c.keywords:
         d = _axis(_int(ev(c.args[0])), x.ndim)
         idx = ev(c.args[1])
@@ -800,10 +809,29 @@ def _call_impl(c: ast.Call, ev, t: str):
         ii = np.vectorize(lambda z: int(z), otypes=[int])(idx) if idx.size else idx.astype(int)
         if ii.size and (ii.min() < 0 or ii.max() >= x.shape[d]):
             raise NotEvaluable("gather index out of range")
-        try:
-            return np.take_along_axis(x, ii, axis=d)
-        except (ValueError, IndexError):
-            raise NotEvaluable("gather shapes")
+        # (the library's rule: the result has the index's shape, every other axis is read position by position - nothing is broadcast,
+        # and an index longer than the input along another axis is an error)
+        if any(ii.shape[k_] > x.shape[k_] for k_ in range(x.ndim) if k_ != d):
+            raise ValueError(f"gather: the index {list(ii.shape)} does not fit the input {list(x.shape)} apart from dimension {d}")
+        out = np.empty(ii.shape, dtype=x.dtype)
+        for pos in np.ndindex(ii.shape):
+            p_ = list(pos)
+            p_[d] = int(ii[pos])
+            out[pos] = x[tuple(p_)]
+        return out
+    if m in ("isneginf", "isposinf", "isinf", "isfinite", "isnan") and not c.args and not c.keywords:
+        import math as _m
+        def _cls(z, _k=m):
+            if isinstance(z, (bool, np.bool_)):
+                z = int(z)
+            if isinstance(z, float):
+                inf_, nan_ = _m.isinf(z), _m.isnan(z)
+            else:
+                inf_ = nan_ = False  # (an exact value)
+            return {"isneginf": inf_ and z < 0, "isposinf": inf_ and z > 0, "isinf": inf_, "isfinite": not inf_ and not nan_, "isnan": nan_}[_k]
+        if _is_arr(x):
+            return np.vectorize(_cls, otypes=[bool])(x) if x.size else np.zeros(x.shape, dtype=bool)
+        return bool(_cls(x))
     if m in ("neg", "neg_"):
         return -_as_exact(x)
     if m in ("abs", "abs_"):
